@@ -238,8 +238,7 @@ fn run<T: Elem>(op: &str, a: &[&str], expected: &str) -> Option<Verdict> {
             let is_macro = op == "m_arange";
             let r = try_run(move || if is_macro { match st { None => array_arange!(T, s, t), Some(x) => array_arange!(T, s, t, x) } } else { Array::<T>::arange(s, t, st) });
             match r {
-                // a zero step is outside the statement ("positive whole-number step"); the model mirrors the code there
-                Err(_) => if st.map_or(false, |x| x.f() == 0.0) { Some(Verdict::Open("panic".into())) } else { cmp("panic".into()) },
+                Err(_) => cmp("panic".into()),
                 Ok(r) => Some(seq_verdict(r, expected, 0.0, true, false)),
             }
         }
@@ -248,9 +247,7 @@ fn run<T: Elem>(op: &str, a: &[&str], expected: &str) -> Option<Verdict> {
             let (sv, tv) = (T::of_f(s), T::of_f(t));
             let r = try_run(move || Array::<T>::linspace(sv, tv, n, e));
             match r {
-                // num = 0 with endpoint: `num - delta` underflows; whether that panics depends on the build profile
-                // and the statement speaks of one or more points only
-                Err(_) => if n == Some(0) { Some(Verdict::Open("panic".into())) } else { cmp("panic".into()) },
+                Err(_) => cmp("panic".into()),
                 Ok(r) => Some(seq_verdict(r, expected, 4.0 * ulp_scale(s.abs().max(t.abs())), false, e.unwrap_or(true))),
             }
         }
@@ -259,7 +256,7 @@ fn run<T: Elem>(op: &str, a: &[&str], expected: &str) -> Option<Verdict> {
             let (sv, tv) = (T::of_f(s), T::of_f(t));
             let r = try_run(move || Array::<T>::geomspace(sv, tv, n, e));
             match r {
-                Err(_) => if n == Some(0) { Some(Verdict::Open("panic".into())) } else { cmp("panic".into()) },
+                Err(_) => cmp("panic".into()),
                 Ok(r) => Some(pow_seq_verdict(r, expected, sv.f(), tv.f(), 0.0, sv.f(), tv.f(), e.unwrap_or(true))),
             }
         }
@@ -269,7 +266,7 @@ fn run<T: Elem>(op: &str, a: &[&str], expected: &str) -> Option<Verdict> {
             let r = try_run(move || Array::<T>::logspace(sv, tv, n, e, b));
             let bf = b.unwrap_or(10) as f64;
             match r {
-                Err(_) => if n == Some(0) { Some(Verdict::Open("panic".into())) } else { cmp("panic".into()) },
+                Err(_) => cmp("panic".into()),
                 // in the expressions S/T are unused; the leaves are P(B, start) and P(B, stop)
                 Ok(r) => {
                     let v = pow_seq_verdict(r.clone(), expected, 0.0, 0.0, bf, bf.powf(sv.f()), bf.powf(tv.f()), e.unwrap_or(true));
@@ -332,7 +329,7 @@ fn gen(tier: &str, seed: u64, out: &mut dyn FnMut(String)) {
     let opt_sides: Vec<Option<usize>> = std::iter::once(None).chain(sides.iter().copied().map(Some)).collect();
 
     // ---- corpus of past failures (found by this check on the pinned tree)
-    for l in ["tril i32 i3+1 none", "triu i32 i3+1 1", "tril i32 i0,3+1 none", "tril i32 i3,0+1 0", "triu f64 i2,0,2+1 -1", "tril i32 -:5 none"] { out(l.to_string()); }
+    for l in ["arange u8 0 5 0", "linspace u8 0 1 0 none", "geomspace u8 2 2 0 none", "logspace f64 0 3 0 true 2", "tril i32 i3+1 none", "triu i32 i3+1 1", "tril i32 i0,3+1 none", "tril i32 i3,0+1 0", "triu f64 i2,0,2+1 -1", "tril i32 -:5 none"] { out(l.to_string()); }
 
     for ty in TYPES {
         let signed = ty != "u8";
@@ -381,6 +378,18 @@ fn gen(tier: &str, seed: u64, out: &mut dyn FnMut(String)) {
         }
         for s in shapes(2, 3, 0, 2) { for k in -2isize..=2 { out(format!("diagflat {ty} {} {k}", tag_off(&s, 1))); } }
         for s in [vec![2, 2, 2], vec![1, 1, 1, 1], vec![]] { out(format!("diag {ty} {} none", if s.is_empty() { "-:5".to_string() } else { tag_off(&s, 1) })); }
+        // ---- extreme offsets (isize::MIN / MAX and neighbours): saturating arithmetic, checked diag side
+        for k in [isize::MAX, isize::MAX - 1, isize::MIN, isize::MIN + 1] {
+            for s in [vec![2usize, 3], vec![3, 2], vec![0, 2], vec![2, 2, 2]] {
+                let a = tag_off(&s, 1);
+                out(format!("tril {ty} {a} {k}")); out(format!("triu {ty} {a} {k}"));
+                if k < isize::MAX { out(format!("tril_plus_triu {ty} {a} {k}")); }
+                if s.len() == 2 { out(format!("diag {ty} {a} {k}")); out(format!("tri {ty} {} {} {k}", s[0], s[1])); }
+            }
+            for n in [0usize, 1, 3] { out(format!("diag {ty} {} {k}", tag_off(&[n], 1))); out(format!("diagflat {ty} {} {k}", tag_off(&[n], 1))); out(format!("diag_diag {ty} {} {k}", tag_off(&[n], 1))); }
+        }
+        // a side whose square overflows usize but which itself fits: 2^32 + small
+        for k in [4294967296isize, -4294967296, 4294967295, 3037000500] { out(format!("diag {ty} {} {k}", tag_off(&[1], 1))); }
         // ---- vander: every length 0..6, every column count, both orders; values small enough for u8
         let vals: Vec<i64> = if signed { vec![-2, -1, 0, 1, 2, 3, -3, 2, 1] } else { vec![0, 1, 2, 3, 2, 1, 3, 0, 2] };
         for &n in &sides {
